@@ -15,6 +15,7 @@ static const size_t LV[3] = { 128, 192, 256 };
 typedef struct {
 	int proto, kca, kcb, mode[2], tape_mode[2], mismatch;
 	int adv;                  /* -1: both parties run the library; 0/1: that side is the adversary of run_bake_adv */
+	int pin;                  /* each certificate carries its own validator, which accepts that certificate only */
 	size_t l, cert_pref[2], hello_len[2], pwd_len;
 	int hello_null[2];
 	octet hello[2][100], pwd[2][40];
@@ -62,6 +63,27 @@ static err_t certval(octet* pubkey, const bign_params* params, const octet* data
 	return ERR_OK;
 }
 
+/* bake.h: a certificate comes with its own validator, and the validators of one's own and of the
+   peer's certificate may differ.  In a third of the sessions each certificate gets a validator
+   that knows exactly that certificate (a pinned trust store): applying the validator of the wrong
+   certificate - one's own to the peer's certificate - then rejects an honest peer. */
+static err_t certval_pin(int s, octet* pubkey, const bign_params* params, const octet* data, size_t len)
+{
+	if (len != CFG.certlen[s] || memcmp(data, CFG.certdata[s], len) != 0)
+		return ERR_BAD_CERT;
+	sk_count("probe.pinned_validator_accepted", 1);
+	return certval(pubkey, params, data, len);
+}
+static err_t certval_pin0(octet* pubkey, const bign_params* params, const octet* data, size_t len)
+{
+	return certval_pin(0, pubkey, params, data, len);
+}
+static err_t certval_pin1(octet* pubkey, const bign_params* params, const octet* data, size_t len)
+{
+	return certval_pin(1, pubkey, params, data, len);
+}
+#define VAL_OF(s) (CFG.pin ? ((s) ? certval_pin1 : certval_pin0) : certval)
+
 /* allocation accounting per party (heap filter) */
 static int heap_filter(size_t n, int op)
 {
@@ -104,9 +126,9 @@ static void party_run(party* p)
 		break;
 	case P_BSTS:
 		if (a)
-			CALL(p, "bakeBSTSRunA", bakeBSTSRunA(p->key, c->params, &p->st, p->priv, &p->cert, certval, ch_read, ch_write, &p->ep));
+			CALL(p, "bakeBSTSRunA", bakeBSTSRunA(p->key, c->params, &p->st, p->priv, &p->cert, VAL_OF(p->side ^ 1), ch_read, ch_write, &p->ep));
 		else
-			CALL(p, "bakeBSTSRunB", bakeBSTSRunB(p->key, c->params, &p->st, p->priv, &p->cert, certval, ch_read, ch_write, &p->ep));
+			CALL(p, "bakeBSTSRunB", bakeBSTSRunB(p->key, c->params, &p->st, p->priv, &p->cert, VAL_OF(p->side ^ 1), ch_read, ch_write, &p->ep));
 		break;
 	case P_BPACE:
 		if (a)
@@ -176,7 +198,7 @@ static void party_steps(party* p)
 			CALL(p, "bakeBSTSStep2", bakeBSTSStep2(out, st));
 			SEND(p, out, l / 2);
 			RECV(p, in, &len, 0, 0);
-			CALL(p, "bakeBSTSStep4", bakeBSTSStep4(out, in, len, certval, st));
+			CALL(p, "bakeBSTSStep4", bakeBSTSStep4(out, in, len, VAL_OF(p->side ^ 1), st));
 			SEND(p, out, l / 4 + p->cert.len + 8);
 		}
 		else
@@ -185,7 +207,7 @@ static void party_steps(party* p)
 			CALL(p, "bakeBSTSStep3", bakeBSTSStep3(out, in, st));
 			SEND(p, out, 3 * l / 4 + p->cert.len + 8);
 			RECV(p, in, &len, 0, 0);
-			CALL(p, "bakeBSTSStep5", bakeBSTSStep5(in, len, certval, st));
+			CALL(p, "bakeBSTSStep5", bakeBSTSStep5(in, len, VAL_OF(p->side ^ 1), st));
 		}
 		CALL(p, "bakeBSTSStepG", bakeBSTSStepG(p->key, st));
 		break;
@@ -240,7 +262,7 @@ static void party_steps(party* p)
 			if (c->kcb)
 			{
 				RECV(p, in, &len, 0, 0);
-				CALL(p, "btokBAuthTStep5", btokBAuthTStep5(in, len, certval, st));
+				CALL(p, "btokBAuthTStep5", btokBAuthTStep5(in, len, VAL_OF(p->side ^ 1), st));
 			}
 			CALL(p, "btokBAuthTStepG", btokBAuthTStepG(p->key, st));
 		}
@@ -439,6 +461,11 @@ static void gen_cfg(sk_rng* r, int alloc_mode)
 		c->mismatch = 2; /* certificate data enters the key derivation in BMQV only */
 	if (c->mismatch == 3 && c->proto != P_BMQV && c->proto != P_BAUTH)
 		c->mismatch = 2; /* certificates travel inside BSTS messages; BPACE has none */
+	{
+		/* drawn from a copy of the generator: the sessions of a seed stay what they were */
+		sk_rng t = *r;
+		c->pin = sk_below(&t, 3) == 0;
+	}
 }
 
 static void setup_party(int s, uint64_t tape_seed, int apply_mismatch)
@@ -454,8 +481,8 @@ static void setup_party(int s, uint64_t tape_seed, int apply_mismatch)
 	p->st.hellob = c->hello_null[1] ? 0 : c->hello[1], p->st.hellob_len = c->hello_null[1] ? 0 : c->hello_len[1];
 	p->st.rng = tape_gen, p->st.rng_state = &p->tape;
 	sk_rng_seed(&p->tape.r, tape_seed), p->tape.mode = c->tape_mode[s], p->tape.calls = 0, p->tape.flip_call = TAPE_FLIP[s];
-	p->cert.data = c->certdata[s], p->cert.len = c->certlen[s], p->cert.val = certval;
-	p->peer.data = c->certdata[s ^ 1], p->peer.len = c->certlen[s ^ 1], p->peer.val = certval;
+	p->cert.data = c->certdata[s], p->cert.len = c->certlen[s], p->cert.val = VAL_OF(s);
+	p->peer.data = c->certdata[s ^ 1], p->peer.len = c->certlen[s ^ 1], p->peer.val = VAL_OF(s ^ 1);
 	p->priv = c->priv[s];
 	p->pwd = c->pwd[s], p->pwd_len = c->pwd_len;
 	p->ep.side = s;
@@ -565,10 +592,10 @@ static int run_session(channel* ch, uint64_t sched_seed, int strategy)
 static void describe(const char* what)
 {
 	cfg_t* c = &CFG;
-	sk_text(OUT, "%s: %s l=%u kca=%d kcb=%d A=%s B=%s hello=%s%u/%s%u cert=%u/%u tapes=%d/%d mismatch=%d", what,
+	sk_text(OUT, "%s: %s l=%u kca=%d kcb=%d A=%s B=%s hello=%s%u/%s%u cert=%u/%u%s tapes=%d/%d mismatch=%d", what,
 		PN[c->proto], (unsigned)c->l, c->kca, c->kcb, c->mode[0] && 1 ? "steps" : "Run", c->mode[1] ? "steps" : "Run",
 		c->hello_null[0] ? "null:" : "", (unsigned)c->hello_len[0], c->hello_null[1] ? "null:" : "", (unsigned)c->hello_len[1],
-		(unsigned)c->certlen[0], (unsigned)c->certlen[1], c->tape_mode[0], c->tape_mode[1], c->mismatch);
+		(unsigned)c->certlen[0], (unsigned)c->certlen[1], c->pin ? "(pinned validators)" : "", c->tape_mode[0], c->tape_mode[1], c->mismatch);
 }
 
 /* secrets must not be in released memory (feeds C15) */
